@@ -134,6 +134,8 @@ fn parse_ty(v: &Value) -> Ty {
             Box::new(parse_ty(&v["map"]["valueType"])),
         ),
         "reference" => Ty::Ref(v["reference"]["name"].as_str().unwrap().to_string()),
+        // external types are their fallback as far as the wire is concerned
+        "external" => parse_ty(&v["external"]["fallback"]),
         o => panic!("type {}", o),
     }
 }
